@@ -404,3 +404,64 @@ def combine_world(args, scratch):
     if args.get('sample'):
         out['table_sample'] = dict(U=case['U'], N=case['N'], first_rows=case['rows'][:4], first_index=case['idx'][:12])
     return out
+
+
+# ------------------------------------------------------------------------------------------
+# C17: load_subs round trip on P ranks + inverse-pair cancellation
+# ------------------------------------------------------------------------------------------
+def templates_world(args, scratch):
+    os.makedirs(scratch, exist_ok=True)
+    res = run_world(world_spec(dict(args, P=1), [['subs_templates', dict(max_param=int(args['max_param']), ints=args['ints'])]]), scratch)
+    out = slim(res, keep_choices=False)
+    out['templates'] = (res['ranks'][0]['out'] or {}).get('templates') if res['violation'] is None else None
+    return out
+
+
+def subs_world(args, scratch):
+    import csv
+    from oracles import subs_model
+    os.makedirs(scratch + '/user', exist_ok=True)
+    make_farm(scratch, args.get('canary'), args.get('repo'))
+    rows = args['rows']
+    with open(scratch + '/user/subs.txt', 'w') as f:
+        csv.writer(f, delimiter=';').writerows(rows)
+    prog = [['load_subs', dict(key='k', fname='user/subs.txt', max_param=int(args['max_param']),
+                               use_sympy=bool(args['use_sympy']), bcast_res=bool(args['bcast_res']))]]
+    chains = args.get('chains') or []
+    if chains:
+        prog.append(['simp_inv', dict(key='c', chains=chains, max_param=int(args['max_param']))])
+    res = run_world(world_spec(args, prog), scratch)
+    out = slim(res, keep_choices=bool(args.get('keep_choices', True)))
+    probs = []
+    stats = dict(rows=len(rows), steps=sum(len(r) for r in rows), chains=len(chains))
+    if res['violation'] is None and res['diverged'] is None:
+        loaded = [rk['out'].get('load_subs', {}).get('k') for rk in res['ranks']]
+        for r, l in enumerate(loaded):
+            if not args['bcast_res'] and r != 0:
+                if l is not None:
+                    probs.append(('non-root-got-result', r))
+                continue
+            for p in subs_model.check_loaded(rows, l):
+                probs.append((p[0], 'rank%d' % r) + tuple(p[1:]))
+            if probs:
+                break
+        if not probs and args['bcast_res'] and any(l != loaded[0] for l in loaded):
+            probs.append(('ranks-disagree',))
+        import hashlib
+        out['result_digest'] = hashlib.sha256(repr(loaded[0]).encode()).hexdigest()[:24]
+        if chains and not probs:
+            red = res['ranks'][0]['out'].get('simp_inv', {}).get('c')
+            k = int(args['max_param'])
+            for ch, rd in zip(chains, red):
+                rd = rd or []
+                if 'nan' in ch:
+                    if 'nan' not in rd:
+                        probs.append(('nan-dropped', ch, rd))
+                    continue
+                if 'nan' in rd or not subs_model.compose_equal(ch, rd, k):
+                    probs.append(('composition-changed', ch, rd))
+                    break
+    out['probs'] = [list(map(str, p)) for p in probs][:8]
+    out['sig'] = ('subs:%s' % probs[0][0]) if probs else None
+    out['stats'] = stats
+    return out
